@@ -291,3 +291,33 @@ package corerad
 //@   ensures T4 [C08]: star(a) == old(star(a))
 //@   opt safety [C08,C17]
 //@   opt frame [C08]
+
+// ---------------------------------------------------------------------------
+// verify.go, part 2: option selection by kind and header checks (C12)
+
+//@ func pick
+//@   requires P1: optsOK(options)
+//@   assigns new mem(*ndp.MTU)
+//@   loop 1 invariant I0 [C12,C17,C18]: 0 <= rangeindex + 1 && rangeindex + 1 <= len(options) && (ts == nil || fresh(ts))
+//@   loop 1 invariant I1 [C12,C17,C18]: len(ts) == countTag(arr(options), rangeindex + 1, tagOf("$T"))
+//@   loop 1 invariant I2 [C12,C17,C18]: forall(j, 0, rangeindex + 1, isType(options[j], "$T") ==> ts[countTag(arr(options), j, tagOf("$T"))] == as(options[j], "$T"))
+//@   loop 1 invariant I3 [C12,C17,C18]: forall(k, 0, len(ts), exists(j, 0, rangeindex + 1, isType(options[j], "$T") && countTag(arr(options), j, tagOf("$T")) == k && ts[k] == as(options[j], "$T")))
+//@   ensures E1 [C12,C17,C18]: len(result) == countTag(arr(options), len(options), tagOf("$T"))
+//@   ensures E2 [C12,C17,C18]: forall(j, 0, len(options), isType(options[j], "$T") ==> result[countTag(arr(options), j, tagOf("$T"))] == as(options[j], "$T"))
+//@   ensures E3 [C12,C17,C18]: forall(k, 0, len(result), exists(j, 0, len(options), isType(options[j], "$T") && countTag(arr(options), j, tagOf("$T")) == k && result[k] == as(options[j], "$T")))
+//@   ensures E4 [C12,C17,C18]: forall(k, 0, len(result), result[k] != nil)
+//@   opt safety [C12,C17,C18]
+//@   opt frame [C12]
+
+//@ macro hasField(ps, f) = exists(kf, 0, len(ps), ps[kf].Field == f)
+//@ macro durDiffer(x, y) = x != 0 && y != 0 && x != y
+
+//@ func checkRAs
+//@   requires P1: a != nil && b != nil
+//@   assigns new heap(corerad.problems), new mem(corerad.problem)
+//@   ensures E1 [C12]: len(result) == b2i(a.CurrentHopLimit != b.CurrentHopLimit) + b2i(a.ManagedConfiguration != b.ManagedConfiguration) + b2i(a.OtherConfiguration != b.OtherConfiguration) + b2i(durDiffer(a.ReachableTime, b.ReachableTime)) + b2i(durDiffer(a.RetransmitTimer, b.RetransmitTimer))
+//@   ensures E2 [C12]: hasField(result, "hop_limit") == (a.CurrentHopLimit != b.CurrentHopLimit) && hasField(result, "managed_configuration") == (a.ManagedConfiguration != b.ManagedConfiguration) && hasField(result, "other_configuration") == (a.OtherConfiguration != b.OtherConfiguration)
+//@   ensures E3 [C12]: hasField(result, "reachable_time") == durDiffer(a.ReachableTime, b.ReachableTime) && hasField(result, "retransmit_timer") == durDiffer(a.RetransmitTimer, b.RetransmitTimer)
+//@   ensures E4 [C12]: forall(k, 0, len(result), result[k].Details == "" && (result[k].Field == "hop_limit" || result[k].Field == "managed_configuration" || result[k].Field == "other_configuration" || result[k].Field == "reachable_time" || result[k].Field == "retransmit_timer"))
+//@   opt safety [C12]
+//@   opt frame [C12]
